@@ -52,6 +52,10 @@ def gen_flows(rng, tier):
             cases.append({"name": name, "seed": rng.randrange(1 << 30), "dims": dims, "state": state, "flow_config": cfg,
                           "reset_permutations": rng.random() < 0.5, "n_points": 6 if tier == "quick" else 12,
                           "epochs": 30 if tier == "quick" else 80})
+    cfg = dict(base)
+    cfg.update({"ftype": "realnvp", "linear_transform": "svd"})
+    cases.append({"name": "realnvp-svd-lowdim", "seed": rng.randrange(1 << 30), "dims": rng.choice([2, 3, 4]), "state": "fresh",
+                  "flow_config": cfg, "n_points": 6, "epochs": 30})
     if tier != "quick":
         for name in ("realnvp-default", "maf", "nsf"):
             cfg = dict(base)
